@@ -21,11 +21,11 @@ from dv.common import derive_seed, fp
 from dv.evidence import Recorder, finish
 
 PID = "C15"
-RULE = ("configurations = (messages per queueing thread for 1..3 threads, 2..6 messages in total, write plan "
+RULE = ("configurations = (messages per queueing thread for 1..3 threads on 1..2 connections, 2..6 messages in total, write plan "
         "of partial accepts 1..n bytes and soft errors EAGAIN/EINTR/ENOBUFS, optional unencodable message) x "
         "every schedule with <= 2 deviations (quick) / <= 3 (thorough, base configuration) - a deviation is "
         "a preemption at a line or call of work_write_queue / add_out_msg / remove_out_bytes / "
-        "demand_attention / send_message / the write branch of _handle_connections, or a non-default "
+        "demand_attention / send_message / the write branch of _handle_connections / the AVP loop of Message.as_bytes, or a non-default "
         "pick at a blocking point - enumerated exhaustively; random schedules with up to 8 deviations. "
         "Non-trivial: >= 1 deviation; distinct by (configuration, schedule).")
 ASSUME = ["queueing order = observed order of Queue.put() on the connection's message queue",
@@ -45,7 +45,15 @@ CONFIGS = [
     {"name": "2threads-2each", "threads": [2, 2], "plan": [7, 64, 3], "bad": None},
     {"name": "3threads", "threads": [1, 2, 1], "plan": [50, 50], "bad": 2},
     {"name": "6msgs", "threads": [3, 3], "plan": [100, ["soft", errno.EAGAIN], 1, 200], "bad": None},
+    # two connections: their writers encode at the same time (queueing thread i serves connection i % 2)
+    {"name": "2conns-1each", "threads": [1, 1], "plan": [40], "bad": None, "conns": 2},
+    {"name": "2conns-2each", "threads": [2, 2], "plan": [9, ["soft", errno.EAGAIN], 120], "bad": None, "conns": 2},
 ]
+
+
+def _message_as_bytes():
+    from diameter.message import Message
+    return Message.as_bytes
 
 
 def install_points():
@@ -53,25 +61,28 @@ def install_points():
     P, N = mods["peer"].PeerConnection, mods["node"].Node
     return sched.install({
         P.work_write_queue: None, P.add_out_msg: None, P.remove_out_bytes: None, P.demand_attention: None,
-        P.write_buffer: None, N.send_message: None,
+        P.write_buffer: None, N.send_message: None, _message_as_bytes(): r"as_packed|get_buffer|for avp in",
         N._handle_connections: r"write_buffer|write_lock|remove_out_bytes|\.send\(|sctp_send|select\.select|w_list|ready_w|wsock|interrupt_read",
     })
 
 
 def run_schedule(cfg, decisions=None, rng=None, p=0.0, maxr=0):
     from diameter.message.commands import DeviceWatchdogRequest
-    w = W.NodeWorld({"peers": [{"name": "peer1.example", "ip": ["10.1.1.1"]}],
-                     "apps": [{"app_id": 4, "auth": True, "peers": [0]}],
+    nconns = cfg.get("conns", 1)
+    w = W.NodeWorld({"peers": [{"name": "peer1.example", "ip": ["10.1.1.1"]}, {"name": "peer2.example", "ip": ["10.1.1.2"]}],
+                     "apps": [{"app_id": 4, "auth": True, "peers": [0, 1]}],
                      "node_timers": {"idle": 5000, "dwa": 50, "cer": 50, "cea": 50, "wakeup": 5}})
     try:
         w.start()
-        c = w.handshake_in("peer1.example", auth=[4], ip="10.1.1.1", hbh=0x100)
-        nc = w.node_conn_for(c)
-        base = len(c.remote.received())
+        cs = [w.handshake_in(f"peer{i + 1}.example", auth=[4], ip=f"10.1.1.{i + 1}", hbh=0x100 + i) for i in range(nconns)]
+        ncs = [w.node_conn_for(c) for c in cs]
+        bases = [len(c.remote.received()) for c in cs]
+        c, nc = cs[0], ncs[0]
         sock = c.remote.sock
         for step in cfg["plan"]:
             sock.tx_plan.append(tuple(step) if isinstance(step, list) else step)
-        nc._write_msg_queue._put_log = []
+        for x in ncs:
+            x._write_msg_queue._put_log = []
         msgs, expect = [], {}
         k = 0
         per_thread = []
@@ -95,21 +106,24 @@ def run_schedule(cfg, decisions=None, rng=None, p=0.0, maxr=0):
         ex = sched.Explorer(decisions, rng=rng, p_switch=p, max_random_switches=maxr)
         sched.attach(w.k, ex)
 
-        def queuer(mine):
+        def queuer(mine, target):
             for m in mine:
-                w.node.send_message(nc, m)
-        boxes = [w.k.spawn(queuer, name=f"queuer{i}", args=(mine,)) for i, mine in enumerate(per_thread)]
+                w.node.send_message(target, m)
+        boxes = [w.k.spawn(queuer, name=f"queuer{i}", args=(mine, ncs[i % nconns])) for i, mine in enumerate(per_thread)]
         ex.armed = True
         w.k.run()
         ex.armed = False
         w.k.run()
-        got = c.remote.received()[base:]
-        order = list(nc._write_msg_queue._put_log)
-        want = b"".join(expect[id(m)] for m in order if expect.get(id(m)) is not None)
         problems = []
-        if len(order) != len(msgs):
-            problems.append(("not-all-queued", f"{len(order)} of {len(msgs)} messages were queued"))
-        if got != want:
+        n_queued = sum(len(x._write_msg_queue._put_log) for x in ncs)
+        if n_queued != len(msgs):
+            problems.append(("not-all-queued", f"{n_queued} of {len(msgs)} messages were queued"))
+        for ci_ in range(nconns):
+            got = cs[ci_].remote.received()[bases[ci_]:]
+            order = list(ncs[ci_]._write_msg_queue._put_log)
+            want = b"".join(expect[id(m)] for m in order if expect.get(id(m)) is not None)
+            if got == want:
+                continue
             if len(got) > len(want):
                 kind = "duplicated-or-extra-bytes"
             elif want.startswith(got):
@@ -123,8 +137,9 @@ def run_schedule(cfg, decisions=None, rng=None, p=0.0, maxr=0):
         died = W.monitor_threads(w)
         for sig, d in died:
             problems.append((f"thread-died/{sig}", d))
-        if nc.write_buffer:
-            problems.append(("buffer-not-flushed", f"{len(nc.write_buffer)} bytes left in the write buffer at quiescence"))
+        for x in ncs:
+            if x.write_buffer:
+                problems.append(("buffer-not-flushed", f"{len(x.write_buffer)} bytes left in the write buffer at quiescence"))
         return ex, problems
     finally:
         w.close()
@@ -141,7 +156,7 @@ def shard_main(shard, nshards, tier, scale):
         if thorough:
             bound = 3 if ci == 0 else 2
         else:
-            bound = 2 if ci < 5 else 1
+            bound = 2 if ci < 5 or ci == 8 else 1
         holder = {}
 
         def run_one(dec, cfg=cfg):
@@ -182,7 +197,7 @@ def run(tier, scale=1.0):
     for d in hyp.pool_run(shard_main, (tier, scale)):
         rec.merge(d)
     required = {"deviations:2": 1, "random": 1, "cfg:3threads": 1, "cfg:6msgs": 1, "cfg:2msgs-soft-errors": 1,
-                "cfg:3msgs-one-unencodable": 1}
+                "cfg:3msgs-one-unencodable": 1, "cfg:2conns-1each": 1, "cfg:2conns-2each": 1}
     return finish(rec, tier=tier, level="exploration", rule=RULE, assumptions=ASSUME, t0=t0, exhaustive=True,
                   required_classes=required,
                   extra_cov={"exhaustive_part": "all schedules within the deviation bound for every listed configuration"})
